@@ -49,6 +49,19 @@ CLAIMED = {
           "depth as C10. Requests must exceed the maximum delay (library precondition)."),
     technique="TLA+ model (TLC exhaustive) + spec-generated behaviours replayed on the implementation",
     design_ref="DESIGN.md 4.7, 5 (C15)", engine="stream"),
+ "C09": dict(
+    text=("Quantizer.tla models the statistics cache and refresh counter of RealQuantizer/ComplexQuantizer and the "
+          "quantisation map round((K/s)(x-m)+tm) clipped to the signed b-bit range over exact integers (set-valued at "
+          "rounding ties). TLC checks InRange, Monotone, RefreshSchedule (counter = calls mod p, first-call-only for "
+          "p <= 0), CachedFromRefreshCall and ZeroVariance for all (bits, period, target deviation/mean, real/complex) "
+          "and call sequences with resets and custom deviations. Generated behaviours are replayed on real quantiser "
+          "objects; every output value must lie in TLC's admissible set and the counter/cached statistics must equal "
+          "the model's after every call; quantize_real is driven over the same map."),
+    note=("Trusted: TLC, inputs built with exactly representable prefix mean/deviation (stats_calc_num_samples=2), "
+          "+-1e30 as 'huge'. Bounded: bits 2..8, periods -2..4, K in {1,3}, <= 10 calls. Internal attributes "
+          "stats_calc_indices/stats_cache are compared when present."),
+    technique="TLA+ model (TLC exhaustive) + spec-generated behaviours replayed on the implementation",
+    design_ref="DESIGN.md 4.9, 5 (C09)", engine="quantizer"),
 }
 
 NOT_YET = "check not built yet in this round (planned, see DESIGN.md 5); no claim is made"
